@@ -461,6 +461,38 @@ func specIsHelperName(name string) bool {
 //@   ensures[C02] registers-copied-in-order: valueUsed ==> len(c.code) == len(old(c.code)) + 1 + len(returnTypes) && forall(k, 0, len(returnTypes), c.code[len(old(c.code)) + 1 + k] == specAssign(specName(len(c.funcs) > 0, c.funcCounter, specHelperName(old(c.varCounter) + k), false), "${_rv" + itoa(k) + "}") && result[k] == specRef(specName(len(c.funcs) > 0, c.funcCounter, specHelperName(old(c.varCounter) + k), false)))
 //@   ensures[C02] frame: sameExcept(c, old(c), "code", "varCounter")
 
+// specWord: how the converter writes one argument of an external command: between double quotes
+// when it is a reference or contains a blank, bare otherwise (the code's rule; what the property
+// asks for instead is the FINDING clause on AppCall).
+func specWord(a string) string {
+	if strings.HasPrefix(a, "$") || strings.Contains(a, " ") {
+		return "\"" + a + "\""
+	}
+	return a
+}
+
+// specCommand: one command of a pipeline, its name followed by its n words.
+func specCommand(name string, n int, words string) string {
+	if n > 0 {
+		return name + " " + words
+	}
+	return name
+}
+
+// An external call chain: command k of the chain is written as its name and its words in order,
+// the commands are joined left to right by " | "; as a statement the pipeline is the emitted
+// line, as a value its output is captured into a fresh helper and $? into the next one.
+//@ func (*converter).AppCall
+//@   loop 2 invariant[C18] words-so-far: len(argsCopy) == len(call.args) && forall(k, 0, rangeindex + 1, argsCopy[k] == specWord(call.args[k])) && forall(k, rangeindex + 1, len(argsCopy), argsCopy[k] == call.args[k])
+//@   loop 1 invariant[C18] commands-so-far: calls(strings_Join) == rangeindex + 1 && len(callStrings) == rangeindex + 1
+//@   loop 1 invariant[C18] words-of-each-command: forall(k, 0, calls(strings_Join), arg(strings_Join, k, 1) == " " && len(arg(strings_Join, k, 0)) == len(callsCopy[k].args) && forall(i, 0, len(callsCopy[k].args), arg(strings_Join, k, 0)[i] == specWord(callsCopy[k].args[i])))
+//@   loop 1 invariant[C18] command-k-is-name-and-words: forall(k, 0, len(callStrings), callStrings[k] == specCommand(callsCopy[k].name, len(callsCopy[k].args), res(strings_Join, k, 0)))
+//@   loop 1 invariant[C18] frame: sameExcept(c, old(c))
+//@   ensures[C18] commands-in-order-joined-by-pipes: calls(strings_Join) == len(calls) + 1 && arg(strings_Join, len(calls), 1) == " | " && len(arg(strings_Join, len(calls), 0)) == len(calls) && forall(k, 0, len(calls), arg(strings_Join, k, 1) == " " && len(arg(strings_Join, k, 0)) == len(calls[k].args) && forall(i, 0, len(calls[k].args), arg(strings_Join, k, 0)[i] == specWord(calls[k].args[i])) && arg(strings_Join, len(calls), 0)[k] == specCommand(calls[k].name, len(calls[k].args), res(strings_Join, k, 0)))
+//@   ensures[C18] statement-form-runs-the-pipeline: !valueUsed ==> appended(c.code, old(c.code), res(strings_Join, len(calls), 0)) && len(result0) == 3 && result0[0] == "" && result0[1] == "" && result0[2] == "0" && err == nil && sameExcept(c, old(c), "code")
+//@   ensures[C18] value-form-captures-output-then-status: valueUsed ==> appended(c.code, old(c.code), specAssign(specName(len(c.funcs) > 0, c.funcCounter, specHelperName(old(c.varCounter)), false), "$(" + res(strings_Join, len(calls), 0) + ")"), specAssign(specName(len(c.funcs) > 0, c.funcCounter, specHelperName(old(c.varCounter) + 1), false), "$?")) && len(result0) == 3 && result0[0] == specRef(specName(len(c.funcs) > 0, c.funcCounter, specHelperName(old(c.varCounter)), false)) && result0[1] == "" && result0[2] == specRef(specName(len(c.funcs) > 0, c.funcCounter, specHelperName(old(c.varCounter) + 1), false)) && err == nil && sameExcept(c, old(c), "code", "varCounter")
+//@   ensures[C08,C18,FINDING] every-argument-is-one-quoted-word: forall(k, 0, len(calls), forall(i, 0, len(calls[k].args), arg(strings_Join, k, 0)[i] == "\"" + specDQEscape(calls[k].args[i]) + "\""))
+
 func funcInfoOf(name string) funcInfo {
 	return funcInfo{name: name}
 }
